@@ -357,6 +357,9 @@ def run(F, rep, tier):
     raw_blocks_rule(F, rep)
     emission.rule_emission(F, rep, M)
     C04.structure_rules(F, G, rep, M)
+    # the reader consumes exactly the raw element: the event loop's own bound (a replay without Game End ends by it)
+    from props import C07 as _C07
+    _C07.loop_bound_rule(F, rep, "read.loop-bound")
     gecko_rule(F, rep)
     # the trailing metadata element is part of the bytes: reader and writer grammars agree and the writer accepts what the reader produces
     from props import C16
